@@ -66,11 +66,13 @@ theorem cancelled_mono {st st' : SState} (h : Mono (tick st) st') (hc : cancelle
     have := (cancelled_false_iff st').1 hc'
     exact absurd (h.live ((mono_tick st').live this)) (not_live_of_cancelled hc)
 
-/-- The node contract with table invariant `Inv` and cancellation. -/
-structure RecTT (Inv : TTState → Prop) (n : Nat) (vc : P → Score) (pathc : P → Score → List Move → Prop)
+/-- The node contract with table invariant `Inv` and cancellation, for the positions of the domain `D`
+    (the positions the searcher is actually called on: the region of the tree at this remaining depth). -/
+structure RecTT (Inv : TTState → Prop) (D : P → Prop) (n : Nat) (vc : P → Score)
+    (pathc : P → Score → List Move → Prop)
     (rec : P → Score → Score → SState → Score × List Move × SState) : Prop where
   vok : ∀ c, okN n (vc c)
-  node : ∀ c a b st, Inv st.tt → (Live st → okN n a ∧ okN n b) →
+  node : ∀ c a b st, D c → Inv st.tt → (Live st → okN n a ∧ okN n b) →
     Mono st (rec c a b st).2.2 ∧ Inv (rec c a b st).2.2.tt ∧
     (Live (rec c a b st).2.2 →
       okN n (rec c a b st).1 ∧
@@ -255,9 +257,11 @@ theorem LoopPost.pick_cont {m : Move} {rest : List Move} {a : Score} {pv : List 
 end post
 
 /-- Loop invariant of `abLoop` with a table invariant and cancellation, for an arbitrary move list. -/
-theorem abLoop_tt {g : Game P} {ex : Explore} {rec} {p : P} {Inv : TTState → Prop} {n : Nat} {vc : P → Score}
-    {pathc : P → Score → List Move → Prop} (H : RecTT Inv n vc pathc rec) (hn : n ≤ 126) {b : Score} :
-    ∀ (l : List Move) (a : Score) (pv : List Move) (hl : Bool) (st : SState), Inv st.tt →
+theorem abLoop_tt {g : Game P} {ex : Explore} {rec} {p : P} {Inv : TTState → Prop} {D : P → Prop} {n : Nat}
+    {vc : P → Score}
+    {pathc : P → Score → List Move → Prop} (H : RecTT Inv D n vc pathc rec) (hn : n ≤ 126) {b : Score} :
+    ∀ (l : List Move), (∀ m ∈ l, ∀ c, g.push p m = some c → ex.pick m = true → D c) →
+    ∀ (a : Score) (pv : List Move) (hl : Bool) (st : SState), Inv st.tt →
     (Live st → okN (n + 1) a ∧ okN (n + 1) b) →
     ∀ res, abLoop g ex rec p b l a pv hl st = res →
       Mono st res.2.2.2.2 ∧ Inv res.2.2.2.2.tt ∧
@@ -265,12 +269,13 @@ theorem abLoop_tt {g : Game P} {ex : Explore} {rec} {p : P} {Inv : TTState → P
   intro l
   induction l with
   | nil =>
-    intro a pv hl st hinv hab res hres
+    intro _ a pv hl st hinv hab res hres
     simp only [abLoop] at hres
     subst hres
     exact ⟨Mono.refl _, hinv, fun hlive => LoopPost.nil (hab hlive).1⟩
-  | cons m rest ih =>
-    intro a pv hl st hinv hab res hres
+  | cons m rest ih' =>
+    intro hD a pv hl st hinv hab res hres
+    have ih := ih' (fun m' hm' => hD m' (List.mem_cons_of_mem _ hm'))
     cases hpush : g.push p m with
     | none =>
       rw [abLoop_none hpush] at hres
@@ -293,7 +298,8 @@ theorem abLoop_tt {g : Game P} {ex : Explore} {rec} {p : P} {Inv : TTState → P
         rw [abLoop_pick hpush hp] at hres
         have hab' : Live st → okN n (childBound b) ∧ okN n (childBound a) := fun hlive =>
           ⟨okN_cw (hab hlive).2 (by omega), okN_cw (hab hlive).1 (by omega)⟩
-        obtain ⟨hm, hi, hs⟩ := H.node c (childBound b) (childBound a) st hinv hab'
+        obtain ⟨hm, hi, hs⟩ := H.node c (childBound b) (childBound a) st
+          (hD m List.mem_cons_self c hpush hp) hinv hab'
         generalize rec c (childBound b) (childBound a) st = r at hres hm hi hs
         dsimp only at hres
         -- facts about the child, available when its search stayed live
